@@ -342,3 +342,71 @@ Definition hvfc (h : heap) (files : outcome (list ref)) (l : list hstep) : heap 
       | _ => (h1, fail_of o)
       end
   end.
+
+(** ** Sequences of runs over ONE log in ONE memory
+
+    What pcr0tool validate_security (and any other caller of the package) does
+    with a bootengine.Log: it prints the merged measurements
+    ([state.MeasuredData.References()] followed by [SortAndMerge()]: the
+    [Reference] structs are copies, their range arrays are those of the log), then
+    hands the log to [validator.All()] -- each validator separately or through
+    [Validators.Validate] -- possibly more than once. *)
+Inductive pass :=
+| PVap                                  (* ValidatorActorsAreProtected{}.Validate *)
+| PVfc (files : outcome (list ref))     (* ValidatorFinalCoverageIsComplete{}.Validate; [files]: UEFIFiles(...).Data *)
+| PSm                                   (* state.MeasuredData.References() + SortAndMerge() *)
+| PAll (files : outcome (list ref)).    (* validator.All().Validate *)
+
+Inductive pres :=
+| RIss (o : outcome (list vissue))
+| RRefs (o : outcome (list ref))
+| RChain (o : outcome (list (vissue + Z * Z))).
+
+Definition all_meas (l : list hstep) : list lref := flat_map hs_meas l.
+
+Definition omap_out {A B} (f : A -> B) (o : outcome A) : outcome B :=
+  match o with Ok a => Ok (f a) | Err c => Err c | Panic => Panic | OutOfFuel => OutOfFuel end.
+
+Definition hsm_all (h : heap) (l : list hstep) : heap * outcome (list ref) :=
+  let '(h1, o) := hsm h (map alias (all_meas l)) in (h1, omap_out (map (hval h1)) o).
+
+(** [Validators.Validate]: [result = append(result, v.Validate(ctx, s, l)...)] for
+    the three validators of [All()] *)
+Definition hall (h : heap) (files : outcome (list ref)) (l : list hstep)
+  : heap * outcome (list (vissue + Z * Z)) :=
+  let '(h1, o1) := hvap h l in
+  match o1 with
+  | Ok a =>
+      let '(h2, o2) := hvfc h1 files l in
+      match o2 with
+      | Ok b => (h2, Ok (chain a b (vni (val_log h2 l))))
+      | o => (h2, fail_of o)
+      end
+  | o => (h1, fail_of o)
+  end.
+
+Definition run_pass (h : heap) (l : list hstep) (p : pass) : heap * pres :=
+  match p with
+  | PVap => let '(h1, o) := hvap h l in (h1, RIss o)
+  | PVfc f => let '(h1, o) := hvfc h f l in (h1, RIss o)
+  | PSm => let '(h1, o) := hsm_all h l in (h1, RRefs o)
+  | PAll f => let '(h1, o) := hall h f l in (h1, RChain o)
+  end.
+
+Fixpoint run_passes (h : heap) (l : list hstep) (ps : list pass) : heap * list pres :=
+  match ps with
+  | [] => (h, [])
+  | p :: t =>
+      let '(h1, r) := run_pass h l p in
+      let '(h2, rs) := run_passes h1 l t in
+      (h2, r :: rs)
+  end.
+
+(** what the value-level model says about a pass over the log [l] *)
+Definition vpass (l : list step) (p : pass) : pres :=
+  match p with
+  | PVap => RIss (vap l)
+  | PVfc f => RIss (vfc f l)
+  | PSm => RRefs (sm_all l)
+  | PAll f => RChain (vall f l)
+  end.
